@@ -204,3 +204,35 @@ Example C17_example_memoising_reads :
   PatternRM.in_scope mf ((h ++ q2 ++ q1) ++ [PatternRM.PHas 5 4])%N = true /\
   fst (PatternRM.pm_has_link mf (PatternRM.pm_run mf (PatternRM.pm_empty 10) (h ++ q1 ++ q2)) 5 4)%N = true.
 Proof. vm_compute. repeat split; reflexivity. Qed.
+
+(* ------------------------------------------------------------------ Part C: the lock the wrappers take
+   The Enter events of Part A are guarded by the readers-writer specification; these are the statements that make
+   that guard true of casbin/util/rwlock.py AS IT IS ON THIS RUN (program regenerated by translators/rwlock.py, tie
+   and invariants proved in RWLockTie.v / RWLockProofs.v; C16 states the full set): a writer inside is alone, a
+   sleeping thread's wait condition is true (no lost wake-up), and while some thread has not finished some thread
+   can step (no deadlock) - for every number of threads and every schedule. *)
+From PyCasbin Require RWLockLang RWLock RWLockProofs RWLockTie.
+From PyCasbinGen Require RWLockGen.
+
+Module LockPart.
+Import RWLockLang RWLock RWLockProofs RWLockTie RWLockGen.
+
+Theorem C17_lock_writer_is_alone : forall progs c,
+  reachable (mon_step rwlock_gen) progs c ->
+  forall t, inside c t Wr -> forall t', t' <> t -> outside c t'.
+Proof. exact g_exclusion. Qed.
+Print Assumptions C17_lock_writer_is_alone.
+
+Theorem C17_lock_no_lost_wakeup : forall progs c,
+  reachable (mon_step rwlock_gen) progs c ->
+  forall i k, sleeping c i k -> wait_cond k c = true.
+Proof. exact g_no_lost_wakeup. Qed.
+Print Assumptions C17_lock_no_lost_wakeup.
+
+Theorem C17_lock_deadlock_free : forall progs c,
+  reachable (mon_step rwlock_gen) progs c ->
+  (exists i t, nth_error (ths c) i = Some t /\ ~ finished t) ->
+  exists i, enabled (mon_step rwlock_gen) c i.
+Proof. exact g_deadlock_free. Qed.
+Print Assumptions C17_lock_deadlock_free.
+End LockPart.
